@@ -8,6 +8,7 @@ CONSTANTS
   BugInitEmpty <- MCBugInitEmpty
   BugStaleInit <- MCBugStaleInit
   BugRelinkDrop <- MCBugRelinkDrop
+  BugNoRepub <- MCBugNoRepub
   WSet <- MCWSet
   Gen = TRUE
 VIEW View
